@@ -832,3 +832,18 @@ Proof.
   destruct (G4 Hs) as [K [M B]]. fold c in G1, G2, G3, K, M, B.
   repeat split; try assumption; [rewrite M | rewrite B | rewrite G3]; f_equal; lia.
 Qed.
+
+(* ------------------------------------------------------------------ a record is written as a whole *)
+(* the rotation decision is taken once, before the record is written: after `write` the record is the
+   tail of the current file, whether or not a rotation happened -- never split between two files *)
+Lemma write_record_whole c s r now cur d :
+  s_fp s = true -> fs_get (c_file c) (s_fs s) = Some (cur, d) ->
+  exists pre d', fs_get (c_file c) (s_fs (write c s r now)) = Some (pre ++ [r], d') /\ (pre = cur \/ pre = []).
+Proof.
+  intros Hfp Hcur. unfold write.
+  destruct (shall_rotate c (s_rot s) now (s_size s + rlen r)).
+  - cbn [s_fp s_fs rotate]. unfold rotate.
+    destruct (fs_exists (c_file c) (s_fs s) && (0 <? Z.of_nat (List.length (s_backup s)))); cbn [s_fp s_fs];
+      unfold fs_append; rewrite get_put_same; exists [], 0%nat; rewrite get_put_same; auto.
+  - rewrite Hfp. cbn [s_fs]. unfold fs_append. rewrite Hcur. exists cur, d. rewrite get_put_same. auto.
+Qed.
